@@ -139,6 +139,10 @@ func (s *span) styleToSpan(in *style) error {
 		return errInvalidContent
 	}
 	s.end += s.at
+	if s.end < s.at {
+		// Integer overflow: offset + length does not fit.
+		return errInvalidContent
+	}
 
 	if s.tp == "" {
 		s.key = in.Key
